@@ -298,7 +298,8 @@ def evaluate_e2e(spec):
         any(sum(1 for srv, a, e, _, _ in spans if srv == s["srv"] and s["off"] < e and s["off"] + len(s["data"]) > a) >= 2 for s in segs)
     n_c = sum(len(d) for s_, d, _ in conn.events if not s_)
     n_s = sum(len(d) for s_, d, _ in conn.events if s_)
-    wrap = ((t.get("isn_c", 1000) & 0xFFFFFFFF) + 1 + n_c > 0xFFFFFFFF) or ((t.get("isn_s", 5000) & 0xFFFFFFFF) + 1 + n_s > 0xFFFFFFFF)
+    aimed = isinstance(t.get("isn_c"), list) or isinstance(t.get("isn_s"), list)
+    wrap = aimed or ((t.get("isn_c", 1000) & 0xFFFFFFFF) + 1 + n_c > 0xFFFFFFFF) or ((t.get("isn_s", 5000) & 0xFFFFFFFF) + 1 + n_s > 0xFFFFFFFF)
     labels = ["e2e:" + t.get("mode", "rec")]
     feats = []
     if t.get("dups"):
@@ -307,6 +308,8 @@ def evaluate_e2e(spec):
         feats.append("move")
     if wrap:
         feats.append("wrap")
+    if aimed:
+        feats.append("seq0-on-boundary")
     labels += ["e2e:" + f for f in feats]
     return {"sig": ("e2e " + sig) if sig else None, "detail": detail, "nontrivial": bool(multi and (feats or t.get("mode") in ("cuts", "bytes"))),
             "labels": labels, "excluded": excluded}
@@ -338,6 +341,9 @@ def e2e_strategy(tier):
         t = draw(strategies.tcp_delivery(modes=("rec", "cuts", "cuts", "flight"), dups=True, moves=True))
         if draw(st.booleans()):
             t["isn_c"], t["isn_s"] = draw(wrap_isn), draw(wrap_isn)
+        elif draw(st.booleans()):
+            # wrap exactly on a segment boundary: that segment gets sequence number 0
+            t["isn_c"], t["isn_s"] = ["zero_at", draw(st.integers(0, 20))], ["zero_at", draw(st.integers(0, 20))]
         t["acks"] = draw(st.booleans())
         return t
     return strategies.single_tls_scenario(combos=combos, max_records=10, max_len=600 if tier == "quick" else 3000, delivery=delivery())
